@@ -247,6 +247,11 @@ RD_GAUGE = RD([
     ("dyn_inflight_le_largest_limit", "inflight_le_largest_limit_dyn", "with the limit changed while calls are in flight, never more callers inside the run function than the LARGEST limit ever in force: each admission is decided against the old or the new limit, never a mixture")])
 RD_ALT = RD([("dyn_notifications_alternate", "notifications_alternate_dyn", "whole calls, OpenCircuit / CloseCircuit and operators switching overrides, every schedule: Opened / Closed strictly alternate and the state flag is the last notification whenever the transition mutex is free")])
 RD_LIVE = RD([("dyn_never_deadlocks", "never_deadlocks_dyn", "whole calls racing transitions racing reconfigurations never deadlock")])
+RD_C08 = [((a, "CM.Props.RunDynC08." + t, d), "Props.RunDynC08") for a, t, d in [
+    ("dyn_force_open_binds_later_calls", "force_open_binds_later_calls", "every schedule, from ANY configuration in which no operator has a store pending and ForceOpen is on: a call that starts afterwards is never invoked, whatever the others do; it ends shed with exactly one short-circuit"),
+    ("dyn_forced_closed_admits_later_calls", "forced_closed_admits_later_calls", "… ForcedClosed on (ForceOpen off): a call that starts afterwards is never short-circuited, whatever the state flag and the others do (veto and bulkhead still apply)"),
+    ("dyn_override_freezes_later_transitions", "override_freezes_later_transitions", "… either override on and everybody fresh or finished: no Opened / Closed is ever announced and the state flag never changes, by failing or succeeding calls, OpenCircuit or CloseCircuit, in any interleaving"),
+    ("dyn_cleared_overrides_resume_state", "cleared_overrides_resume_state", "… both overrides off (cleared): a later call is invoked only if it read the STATE FLAG as closed, or as open and the closer admitted it, and the opener did not veto it")]]
 RD_VIEW = [(("dyn_call_thread_view", "CM.Props.RunDynView.call_thread_view", "every schedule of calls racing operators, seen from one call thread, is a solo run of the static model's thread against some oracle — the runs the K6 ties of `run` / `IsOpen` / `openCircuit` / `close` quantify over"), "Props.RunDynView")]
 
 # ---- hystrix / simplelogic / default factories (units GoHFac*)
@@ -381,12 +386,12 @@ PROPS = {
     "C06": ("fallback rules: `Execute` and `fallback`", [FALLBACK, EXECUTE, RUNENTRY] + FAN_FB + ERR_BAD + ERR_NOTBAD + K6_FB[:1] + K6_FB[2:]),
     "C07": ("contexts: the derived deadline context in `run`, the caller's context everywhere else", [RUN, FALLBACK, EXECUTE]),
     "C08": ("overrides and pass-through: `IsOpen`, `allowNewRun`, the transitions, `Execute`'s Disabled branch, the published flags",
-            [C("IsOpen"), C("isEmptyOrNil"), C("allowNewRun"), C("openCircuit"), C("close"), C("attemptToOpen"), EXECUTE] + LIVECFG + SETCFG + ATOM_BOOL + CIRC_MISC),
+            [C("IsOpen"), C("isEmptyOrNil"), C("allowNewRun"), C("openCircuit"), C("close"), C("attemptToOpen"), EXECUTE] + LIVECFG + SETCFG + ATOM_BOOL + CIRC_MISC + RD_C08 + RD_ALT + RD_VIEW),
     "C09": ("transitions and their notifications",
             [C("IsOpen"), C("openCircuit"), C("close"), C("attemptToOpen"), C("OpenCircuit"), C("CloseCircuit"), C("checkSuccess"), C("checkErrFailure"), C("checkErrTimeout")] + FAN_CIRC + SETCFG + ATOM_BOOL + K6_TRANS + K6_CORE + CTOR + HFAC_CLOSER[2:3] + HFAC_OPENER[5:6] + K6_RUN + RD_ALT),
     "C10": ("panics: the deferred calls of `run` and `fallback` run on every exit", [RUN, FALLBACK, EXECUTE] + CIRC_MISC + RUN_EVENTS[:1] + RUN_C04[3:4] + RUN_LIVE + K6_RUN[:1] + RD_EVENTS[:1] + RD_GAUGE[1:2] + RD_LIVE),
     "C11": ("reconfiguration: what each SetConfigThreadSafe writes (circuit, hystrix opener, hystrix closer, SLO tracker) — every setting, nothing else",
-            SETCFG + LIVECFG + OPENER_CFG + CLOSER_CFG + SLO_CFG + VARS_C11 + RD_EVENTS + RD_GAUGE + RD_ALT + RD_LIVE + RD_VIEW),
+            SETCFG + LIVECFG + OPENER_CFG + CLOSER_CFG + SLO_CFG + VARS_C11 + RD_EVENTS + RD_GAUGE + RD_ALT + RD_LIVE + RD_VIEW + RD_C08[:1] + RD_C08[3:]),
     "C12": ("every timestamp is a reading of the configured clock: all translated functions of circuit.go",
             [C("now"), C("OpenCircuit"), C("CloseCircuit"), RUN, FALLBACK] + ALL + CTOR[:4]),
     "C13": ("the rolling counter: rolling_bucket.go's `Advance` and rolling_counter.go's methods are the model `RC`", ROLL + FSNEW_RC + ROLL_STORE),
@@ -432,7 +437,7 @@ UNITS = {"F_": "gocircuit", "All": "gocircuit", "T_GoHOpener": "gohopener", "T_G
          "T_GoFbStatsVar": ["gofbstatsvar", "gofbstats"], "T_GoRunStatsVar": ["gorunstatsvar", "gorunstats"], "T_GoSloVar": "goslovar",
          "T_GoRPVar": ["gorpvar", "gorpsnap", "gosdvar", "gosorteddurations"], "T_GoManagerVar": "gomanagervar", "T_GoExpvarToVal": "goexpvartoval",
          "T_GoFanRunVar": "gofanrunvar", "T_GoFanFbVar": ["gofanfbvar", "gofanrunvar"], "T_GoCircuitVar": "gocircuitvar",
-         "I_Core": [], "Props.RunAll": [], "Props.RunDynAll": [], "Props.RunDynView": [], "I_Fb": "gofbi", "I_Run": "goruni", "I_Mgr": ["gomgri", "gomgriall", "gomanager"], "I_RC": ["gorciclear", "gorciadv", "gorciops"], "I_TC": "gotci", "I_Call": "gocalli",
+         "I_Core": [], "Props.RunAll": [], "Props.RunDynAll": [], "Props.RunDynView": [], "Props.RunDynC08": [], "I_Fb": "gofbi", "I_Run": "goruni", "I_Mgr": ["gomgri", "gomgriall", "gomanager"], "I_RC": ["gorciclear", "gorciadv", "gorciops"], "I_TC": "gotci", "I_Call": "gocalli",
          "T_GoLiveLogic": ["goneveropens", "gonevercloses", "gohopenercfg", "gohclosercfg", "goslocfg"]}
 
 def units_of(prop):
